@@ -1016,6 +1016,14 @@ class C12(Check):
             if names:
                 maps.append(("s", dict(zip(labs, names))))
             trip["l%d" % n] = (rc, maps)
+        # one input of realistic size: more records than any 16-bit counter or small-input shortcut covers
+        for n in range(1 if self.tier == "quick" else 3):
+            N = rng.randint(120, 260)
+            recs = [(rng.randrange(N), rng.randrange(N), [rng.choice([0, 1, 1, 2])]) for _ in range(rng.randint(66000, 72000))]
+            rc = RunCase(rng.random() < 0.5, False, "r", 2, recs, 1, r=1, maxit=1, seed=rng.randint(0, 2 ** 32))
+            labs = gen.first_appearance(recs)
+            big = rng.sample(range(10 ** 3, 2 ** 62), len(labs))
+            trip["big%d" % n] = (rc, [("u", dict(zip(labs, sorted(big, reverse=True)))), ("s", {x: "n%d" % (7 * x % 1009) + "x" * (x % 3) + str(x) for x in labs})])
         lines = []
         for cid, (rc, maps) in trip.items():
             lines.append(rc.line(cid + ".0"))
